@@ -1,6 +1,7 @@
 package c11
 
 import (
+	"bytes"
 	"fmt"
 	"testing"
 	"time"
@@ -161,3 +162,86 @@ var propCustom = ev.Register(&ev.Prop[DCase]{
 })
 
 func TestC11CustomDictionary(t *testing.T) { propCustom.Check(t, 600, 20000) }
+
+// ---------------------------------------------------------------------------
+// What a state machine advertises and accepts is the list sm.PrepareSupportedApps derives from
+// the dictionary (sm.New always asks it about dict.Default, which the harness never changes; the
+// function itself takes any parser). It must list every application the dictionary declares -
+// an id declared as auth and as acct twice - and follow the dictionary as it grows.
+
+func runSupportedApps(c DCase) *ev.Failure {
+	emb, err := dicts.EmbeddedXML()
+	if err != nil {
+		return ev.Failf("harness-dict", "%v", err)
+	}
+	var base string
+	for _, e := range emb {
+		if e.Var == "baseXML" {
+			base = e.XML
+		}
+	}
+	p, err := dicts.Load(base)
+	if err != nil {
+		return ev.Failf("harness-dict", "%v", err)
+	}
+	type key struct {
+		id  uint32
+		typ string
+	}
+	want := map[key]bool{}
+	for _, a := range sm.PrepareSupportedApps(p) { // the base document's own applications (id 0 is left out by design)
+		want[key{a.ID, a.AppType}] = true
+	}
+	for i, d := range c.Docs {
+		if err := p.Load(bytes.NewReader([]byte(docXML(d)))); err != nil {
+			return ev.Failf("harness-dict", "generated document %d does not load: %v", i, err)
+		}
+		for _, a := range d {
+			want[key{a.ID, a.Typ}] = true
+		}
+		got := map[key]int{}
+		for _, a := range sm.PrepareSupportedApps(p) {
+			got[key{a.ID, a.AppType}]++
+		}
+		for k := range want {
+			if got[k] == 0 {
+				return ev.Failf("supported-apps:missing", "after loading document %d of %v the dictionary declares application %d as %q, but sm.PrepareSupportedApps does not list it (it lists %v): a state machine would neither advertise nor accept it", i, c.Docs, k.id, k.typ, got)
+			}
+		}
+		for k := range got {
+			if !want[k] {
+				return ev.Failf("supported-apps:invented", "after loading document %d of %v sm.PrepareSupportedApps lists application %d as %q, which no loaded document declares", i, c.Docs, k.id, k.typ)
+			}
+		}
+	}
+	return nil
+}
+
+var propSupported = ev.Register(&ev.Prop[DCase]{
+	ID: "C11", Name: "supported-applications",
+	Rule: "a parser with the base document, then 1..3 generated documents declaring application ids {7101, 7102, 7103} as auth and/or acct loaded one after the other; after every Load sm.PrepareSupportedApps(parser) must list exactly the (id, type) pairs declared so far (an id declared under both types twice); non-trivial = an id is declared under both types, or there are >= 2 documents",
+	Gen:  propCustom.Gen,
+	Run:  runSupportedApps,
+	Classify: func(c DCase) (bool, []string) {
+		types := map[uint32]map[string]bool{}
+		for _, d := range c.Docs {
+			for _, a := range d {
+				if types[a.ID] == nil {
+					types[a.ID] = map[string]bool{}
+				}
+				types[a.ID][a.Typ] = true
+			}
+		}
+		both := false
+		for _, m := range types {
+			both = both || len(m) == 2
+		}
+		var cl []string
+		if both {
+			cl = append(cl, "id-declared-as-auth-and-acct")
+		}
+		return both || len(c.Docs) >= 2, cl
+	},
+})
+
+func TestC11SupportedApps(t *testing.T) { propSupported.Check(t, 300, 8000) }
